@@ -9,7 +9,7 @@ from ..cfg import CFG, explicit_raise_only, _walk_no_nested
 from ..fold import Folder
 from ..front import ClassInfo
 from ..regexec import RegExec
-from ..seq import response_class_of
+from ..seq import response_class_of, nonlocal_stores
 from ..tri import TriInterp, ALL_BYTES, brief_bytes
 
 CMD = "dali.command."
@@ -110,6 +110,7 @@ def check(run, repo, world):
     _check_init(run, repo, world, rcs)
     _check_status_loop(run, repo, world)
     _check_boolop_except(run, repo, world)
+    _check_pure(run, repo, world, rcs)
 
 
 def _sample(rc, what, oc, outs):
@@ -704,3 +705,63 @@ def _check_boolop_except(run, repo, world):
     if not any(r == "R-EXCEPT-BOOLOP" and v["sites"]
                for r, v in run.rules.items()):
         run.ob("R-EXCEPT-BOOLOP", "all-modules", True, trivial=True)
+
+
+def _check_pure(run, repo, world, rcs):
+    """R-RESP-PURE: what a response says is a function of the frame it was
+    built from.  A method of a response class that writes to something
+    shared between responses (a class-level container, the class, a module
+    global) makes one answer's interpretation depend on another's."""
+    run.rule("R-RESP-PURE", "no method of a response class writes to state "
+             "shared between responses (class attribute, module global)")
+    seen = set()
+    n = 0
+    for rc in rcs:
+        for k in rc.mro:
+            if not isinstance(k, ClassInfo) or k in seen:
+                continue
+            seen.add(k)
+            mod = repo.mod(k.mod)
+            inst = set()
+            for k2 in world.class_order:
+                if k in k2.mro or k2 in k.mro:
+                    for (mn, (kind, f)) in k2.methods.items():
+                        for x in _walk_no_nested(f):
+                            if isinstance(x, ast.Attribute) and isinstance(
+                                    x.ctx, ast.Store) and isinstance(
+                                    x.value, ast.Name) and \
+                                    x.value.id == "self":
+                                inst.add(x.attr)
+            for (mn, (kind, f)) in sorted(k.methods.items()):
+                n += 1
+                bad = []
+                for (node, text) in nonlocal_stores(f):
+                    if isinstance(node, (ast.Global, ast.Nonlocal)):
+                        bad.append(text)
+                        continue
+                    t = node.func.value if isinstance(node, ast.Call) \
+                        else node
+                    chain = []
+                    e = t
+                    while isinstance(e, (ast.Attribute, ast.Subscript)):
+                        chain.append(e)
+                        e = e.value
+                    root = e.id if isinstance(e, ast.Name) else None
+                    if root == "self":
+                        first = chain[-1] if chain else None
+                        if isinstance(first, ast.Attribute) and \
+                                first.attr not in ("__class__",):
+                            if first is t and not isinstance(node, ast.Call):
+                                # self.x = ...: the object's own attribute
+                                continue
+                            if first.attr in inst:
+                                # a container the object made for itself
+                                continue
+                    bad.append(text)
+                run.ob("R-RESP-PURE", "%s.%s" % (k.qname, mn), not bad,
+                       "%s.%s writes to state shared between responses "
+                       "(%s): what one answer is decoded to then depends "
+                       "on the answers decoded before it" % (
+                           k.qname, mn, "; ".join(bad[:3])),
+                       where(mod, f))
+    run.floor("response class methods examined for shared writes", n, 20)
